@@ -248,6 +248,41 @@ fn binop_driver(t: &Tier, m: &mut Matrix, sink: &mut Sink, ops: &[&'static str],
             }
         }
     }
+    // products of (near-)powers of two at every pair of word boundaries: partial products that are exactly
+    // 2^w, 2^(2w) (the cross terms of the widening multiply of each word type, their carries into the next word)
+    if ops.contains(&"mul") {
+        let exps = [7usize, 8, 16, 31, 32, 63, 64, 65, 127, 128, 192];
+        let mut k = 0usize;
+        for n in [33usize, 65, 129, 192, 256, 257, 512] {
+            for a in exps {
+                for b in exps {
+                    if a + b >= n {
+                        continue;
+                    }
+                    k += 1;
+                    if t.quick && n > 257 && k % 3 != 0 {
+                        continue;
+                    }
+                    let pow = |len: usize, e: usize, variant: usize| -> Bits {
+                        let mut v = zeros(len);
+                        match variant {
+                            0 => v[e] = 1,                                   // 2^e
+                            1 => { for i in 0..e { v[i] = 1; } }             // 2^e - 1
+                            _ => { v[e] = 1; v[0] = 1; }                     // 2^e + 1
+                        }
+                        v
+                    };
+                    let ylen = if k % 2 == 0 { n } else { b + 1 };
+                    // exact powers always, one rotating pair of neighbours in addition
+                    for (vx, vy) in [(0usize, 0usize), (1 + k % 2, (k / 2) % 3)] {
+                        let x = pow(n, a, vx);
+                        let y = pow(ylen, b, vy);
+                        sink.emit(m.run(&Case::new("mul", x).y(YSpec::Bits(y)).forms(&FORMS6)));
+                    }
+                }
+            }
+        }
+    }
     // full-length random products: a double carry out of one column of the schoolbook multiply needs
     // both partial additions to overflow (about one random 4-word product in twenty)
     if ops.contains(&"mul") {
